@@ -19,9 +19,21 @@ From LV Require Import Model.PTypeSpec Proofs.PTypeP.
    documented type, or is refused with TypeError ([erase] drops the content, [tdoc w None] is
    "TypeError, type w kept"; that a refusal keeps the whole state is C08_refused_step_keeps_state) *)
 Theorem C08_mul_table_matches_doc : forall w b p clip,
-  erase (observed_mul (St w b) p clip) = tdoc w (doc_mul w p).
+  erase (observed_mul (St w b) p clip false) = tdoc w (doc_mul w p).
 Proof. exact mul_table_matches_doc. Qed.
 Print Assumptions C08_mul_table_matches_doc.
+
+(* a cell the table forbids is refused with TypeError - operand kept - whatever the sampling of the
+   two operands (mism = both carry a pixel scale and the two differ), for Plane(ptype=p) and for
+   every claimed class instance *)
+Theorem C08_forbidden_cell_is_TypeError_whatever_the_sampling :
+  (forall w b p clip mism,
+     doc_mul w p = None -> observed_mul (St w b) p clip mism = Raises ETypeError (St w b)) /\
+  (forall k po clip mism w b,
+     op_claimed (MulClass k po clip mism) = true -> doc_mul w (eff_ptype k po) = None ->
+     observed_class_mul k po clip mism (St w b) = Raises ETypeError (St w b)).
+Proof. exact (conj forbidden_cell_is_TypeError forbidden_class_cell_is_TypeError). Qed.
+Print Assumptions C08_forbidden_cell_is_TypeError_whatever_the_sampling.
 
 (* (a) the propagation rows, both routines, wavefronts without fields included *)
 Theorem C08_propagation_matches_doc : forall m w b, b <> Tilted ->
@@ -61,15 +73,19 @@ Proof. exact programs_follow_doc. Qed.
 Print Assumptions C08_programs_follow_doc.
 
 (* (b) the same read on types alone, with no tilt parameter anywhere: programs without
-   propagate_fft from any state, and programs with it that start untilted and never attach a tilt *)
+   propagate_fft from any state, and programs with it that start untilted and never attach a tilt
+   (consistently sampled operands: what a permitted product of differently sampled operands does is
+   C07's clause, [documented] repeats the implementation there) *)
 Theorem C08_program_types_follow_tables : forall ops s,
-  forallb op_claimed ops = true -> forallb (fun o => negb (is_fft o)) ops = true ->
+  forallb op_claimed ops = true -> forallb consistent ops = true ->
+  forallb (fun o => negb (is_fft o)) ops = true ->
   map erase (run_program observed s ops) = run_types (ty s) ops.
 Proof. exact program_types_follow_tables. Qed.
 Print Assumptions C08_program_types_follow_tables.
 
 Theorem C08_untilted_program_types_follow_tables : forall ops s,
-  forallb op_claimed ops = true -> forallb untilting ops = true -> tilted s = false ->
+  forallb op_claimed ops = true -> forallb consistent ops = true ->
+  forallb untilting ops = true -> tilted s = false ->
   map erase (run_program observed s ops) = run_types (ty s) ops.
 Proof. exact untilted_program_types_follow_tables. Qed.
 Print Assumptions C08_untilted_program_types_follow_tables.
@@ -94,7 +110,7 @@ Definition C08_documented_classes_apply_full : Prop :=
     observed_class_ptype k = p /\
     (exists w, doc_mul w p <> None) /\
     (forall w t b clip, doc_mul w p = Some t ->
-       exists b', observed_class_mul k None clip (St w b) = Yields (St t b')).
+       exists b', observed_class_mul k None clip false (St w b) = Yields (St t b')).
 
 (* proved for all documented classes but Rotate and Flip *)
 Theorem C08_documented_classes_apply_partial : forall k p,
@@ -102,7 +118,7 @@ Theorem C08_documented_classes_apply_partial : forall k p,
     observed_class_ptype k = p /\
     (exists w, doc_mul w p <> None) /\
     (forall w t b clip, doc_mul w p = Some t ->
-       exists b', observed_class_mul k None clip (St w b) = Yields (St t b')).
+       exists b', observed_class_mul k None clip false (St w b) = Yields (St t b')).
 Proof. exact documented_classes_apply_partial. Qed.
 Print Assumptions C08_documented_classes_apply_partial.
 
@@ -113,7 +129,7 @@ Print Assumptions C08_documented_classes_apply_refuted.
 
 Theorem C08_rotate_flip_refuted : forall k, known_broken k = true ->
   doc_class_ptype k = Some PTransform /\ observed_class_ptype k = PNone /\
-  forall clip s, observed_class_mul k None clip s = Raises EAttributeError s.
+  forall clip mism s, observed_class_mul k None clip mism s = Raises EAttributeError s.
 Proof. exact rotate_flip_refuted. Qed.
 Print Assumptions C08_rotate_flip_refuted.
 
@@ -126,11 +142,12 @@ Print Assumptions C08_programs_with_rotate_refuted.
    propagation routines, a second wavefront and a wavefront that lost all its light (types only:
    the content is implementation-defined) *)
 Example C08_nonvacuous :
-  let prog := [MulClass KPupil None false; MulType PImage false; Propagate Fft; MulClass KTilt None false;
-               Propagate Dft; MulClass KImage None false; MulType PTransform false; Propagate Dft;
-               MulClass KPlane None false; Fresh (St WNone Plain); MulClass KTilt (Some PPupil) false;
-               MulClass KPupil None true; Propagate Dft; MulClass KImage None false;
-               MulClass KDispersiveTilt (Some PPupil) false] in
+  let prog := [MulClass KPupil None false false; MulType PImage false true; Propagate Fft;
+               MulClass KTilt None false false; Propagate Dft; MulClass KImage None false true;
+               MulType PTransform false false; Propagate Dft; MulClass KPlane None false false;
+               Fresh (St WNone Plain); MulClass KTilt (Some PPupil) false false;
+               MulClass KPupil None true false; Propagate Dft; MulClass KImage None false false;
+               MulClass KDispersiveTilt (Some PPupil) false true] in
   forallb op_claimed prog = true /\
   map erase (run_program observed (St WNone Plain) prog) =
     [TYields WPupil; TRaises ETypeError WPupil; TYields WImage; TYields WImage; TYields WPupil;
